@@ -166,7 +166,9 @@ def run_shard(shard, tier, acc):
         docs = ["\n".join(text_of(CAT[i]) for i in ids) for n in (1, 2, 3) for ids in itertools.product(range(len(CAT)), repeat=n)]
         inputs = [(lambda d=d: Splitter(d).split()) for d in docs]
         for ip in (True, False):
-            leak.run(lambda: ResolveStringReferencesMiddleware(allow_inplace_modification=ip), inputs, acc, f"ResolveStringReferences({ip})", case_of=lambda i: docs[i])
+            from .. import hostile
+
+            leak.run(lambda: ResolveStringReferencesMiddleware(allow_inplace_modification=ip), inputs, acc, f"ResolveStringReferences({ip})", case_of=lambda i: docs[i], poison=hostile.libraries(), judge=None if ip else leak.copy_judge)
         return
     maxb = 4 if tier == "quick" else 5
     i = shard[1]
@@ -178,6 +180,10 @@ def run_shard(shard, tier, acc):
 
 
 def replay(case, acc):
+    if "big" in case:
+        return run_shard(("big", case["big"][0], case["big"][1]), "quick", acc)
+    if "leak" in case:
+        return run_shard(("leak", 0), "quick", acc)
     check_doc(tuple(case["ids"]), acc, case, nl=case.get("newline", "\n"))
 
 
